@@ -87,6 +87,30 @@ def slot_to_witness(fail):
             'ranks': ''.join(names[i] * q[i] for i in range(13))}
 
 
+def holds_problem():
+    """for checks whose unit ASSUMES the contract of MadeHand::from: is that contract still backed on the current code?
+    returns None or a description of what fails (never raises for a mere failure)"""
+    try:
+        r = run_verus('eval', compile_bin=True)
+        if r.compile_error:
+            return 'unit EVAL does not compile on the current code: ' + r.compile_error[-300:]
+        if check_allowed(r.assumption_scan, ALLOWED):
+            return 'unexpected assumption in unit EVAL'
+        failed = sorted(f for f, v in r.functions.items() if not v['success'] and f not in C07_ONLY)
+        if failed:
+            return 'obligation(s) failed: %s' % failed
+        if not os.path.exists(os.path.join(BUILD, 'eval')):
+            p = core.sh(['verus', 'eval.rs', '--compile', '--no-verify'], cwd=BUILD, timeout=600)
+            if p.returncode != 0:
+                return 'cannot compile the table checker'
+        tables_ok, classes_ok, fail = run_checker()
+        if not (tables_ok and classes_ok):
+            return 'table checker: tables_ok=%s classes_ok=%s first failing slot %s' % (tables_ok, classes_ok, fail[:1])
+        return None
+    except Undecided as e:
+        return str(e)[:300]
+
+
 def run(pid, tier, seed):
     t0 = time.time()
     r = run_verus('eval', compile_bin=True)
